@@ -23,12 +23,18 @@ REPO = os.environ.get('VERIF_REPO', '/repo')
 PY = os.path.join(VERIF, '.venv', 'bin', 'python')
 
 
+# every analysis, native replay and sanity input runs in a process whose local zone is far from UTC: code that is correct does not
+# depend on the process zone; code that mixes local-time and UTC conversions (mktime / timestamp() on naive values) shows up
+PROCESS_TZ = os.environ.get('VERIF_TZ', 'XXX11')
+
+
 def child_env():
     env = dict(os.environ)
     env['PYTHONPATH'] = VERIF + os.pathsep + REPO
     env['PYTHONHASHSEED'] = '0'
     env['PYTHONDONTWRITEBYTECODE'] = '1'
     env.setdefault('VERIF_REPO', REPO)
+    env['TZ'] = PROCESS_TZ
     return env
 
 
@@ -106,7 +112,8 @@ def write_replay_file(prop, ob, call, rep):
     with open(path, 'w') as f:
         f.write('#!/verif/.venv/bin/python\n"""replay of a counterexample for %s obligation %s (%s)\n%s\n"""\n' % (
             prop, ob['id'], ob['name'], ob['desc']))
-        f.write('import sys, warnings\nwarnings.simplefilter("ignore")\n')
+        f.write('import os, sys, time, warnings\nwarnings.simplefilter("ignore")\n')
+        f.write('os.environ["TZ"] = %r; time.tzset()          # the checks run with this process zone\n' % PROCESS_TZ)
         f.write('sys.path[:0] = [%r, %r]\n' % (VERIF, REPO))
         f.write('from %s import *\n' % ob['module'])
         f.write('try:\n    r = %s\nexcept Exception as e:\n    print("raised", type(e).__name__, e); r = False\n' % call)
@@ -132,11 +139,14 @@ def main(argv=None):
     ap.add_argument('--replay', default=None)
     ap.add_argument('--no-evidence', action='store_true')
     ap.add_argument('--cap', type=float, default=None, help='development: cap every per-condition timeout')
+    ap.add_argument('--part', default=None, help='development: only partitions whose precondition text contains this')
     a = ap.parse_args(argv)
     prop = a.prop.upper()
     tier = 'thorough' if a.tier.startswith('t') else 'quick'
     seed = int(os.environ.get('VERIF_SEED', '0') or 0)
     t0 = time.time()
+    os.environ['TZ'] = PROCESS_TZ
+    time.tzset()
 
     if a.replay:
         r = subprocess.run([PY, a.replay], cwd=VERIF, env=child_env())
@@ -175,8 +185,10 @@ def main(argv=None):
             continue
         parts = ob['partitions'][tier] or [[]]
         for pre in parts:
+            if a.part and a.part not in ' & '.join(pre):
+                continue
             jobs.append(Job(ob, 'main', list(pre)))
-        if ob['twin']:
+        if ob['twin'] and not a.part:
             jobs.append(Job(ob, 'twin', list(parts[0])))
     if not jobs:
         print('HARNESS-ERROR property=%s no obligations selected' % prop)
